@@ -193,6 +193,10 @@ pub fn run_case(ctx: &mut Ctx, c: &Case) {
     match c {
         Case::Create { prog: p, sched, fail_write_at, fail_flush_at, valgrind } => {
             ctx.count(if *valgrind { "create:valgrind" } else { "create:asan" });
+            if p.nrecip >= 2 {
+                // (the archive is read back with the key of the LAST recipient of the PEM list)
+                ctx.count("create:several_recipients_in_one_pem_list");
+            }
             if sched.contains(&u32::MAX) {
                 ctx.count("create:write_callback_reports_interruptions");
             }
@@ -260,7 +264,7 @@ pub fn run_case(ctx: &mut Ctx, c: &Case) {
                         // the archive must contain exactly what was passed in
                         let raw = std::fs::read(dir.join("out.mla")).unwrap_or_default();
                         let mut rng = Rng::new(p.seed);
-                        match drv::read_all(&raw, &sks[..1], &mut rng).and_then(|got| drv::compare_maps(&expected, &got)) {
+                        match drv::read_all(&raw, &sks[sks.len() - 1..], &mut rng).and_then(|got| drv::compare_maps(&expected, &got)) {
                             Ok(()) => ctx.count("held:create_read_back_by_rust_reader"),
                             Err(e) => ctx.violation("C20", &format!("created-archive-differs:{}", e.split(' ').next().unwrap_or("?")), scen(), json!({"message": e, "schedule": sched})),
                         }
